@@ -299,7 +299,71 @@ package module
 //@     invariant len(buf) == @pos + U(s, @pos)
 //@     invariant forall k int :: 0 <= k && k < len(buf) ==> 0 <= buf[k] && buf[k] < 128
 //@     invariant forall k int :: 0 <= k && k < len(buf) ==> !upper(buf[k])
-//@     invariant forall i int {s[i]} :: 0 <= i && i < @pos ==> (if upper(s[i]) then buf[i + U(s, i)] == '!' && buf[i + U(s, i) + 1] == s[i] + 32 else buf[i + U(s, i)] == s[i])
+//@     invariant forall i int {s[i]} :: 0 <= i && i < @pos && upper(s[i]) ==> buf[i + U(s, i)] == '!' && buf[i + U(s, i) + 1] == s[i] + 32
+//@     invariant forall i int {s[i]} :: 0 <= i && i < @pos && !upper(s[i]) ==> buf[i + U(s, i)] == s[i]
+//@     invariant forall i int {U(s, i)} :: 0 <= i && i <= @pos ==> 0 <= U(s, i) && i + U(s, i) <= len(buf)
 //@     decreases len(s) - @pos
 //@   uses U_mono U_zero U_nonneg
+//@   props C11
+
+//@ # the image of escaping: ASCII, no upper case, every '!' is followed by a lower-case letter
+//@ spec func IMG(e string) bool = forall k int :: 0 <= k && k < len(e) ==> e[k] < 128 && !upper(e[k]) && (e[k] == '!' ==> k + 1 < len(e) && lower(e[k+1]))
+
+//@ # U depends only on the bytes it counts
+//@ lemma U_prefix(a string, b string, n int)
+//@   requires 0 <= n && n <= len(a) && n <= len(b) && (forall k int :: 0 <= k && k < n ==> a[k] == b[k])
+//@   ensures U(a, n) == U(b, n)
+//@   induction n
+//@   trigger U(a, n), U(b, n)
+//@   props C11
+
+//@ # V(e, p): number of '!' among the first p bytes of e
+//@ spec func V(e string, p int) int decreases p = if p <= 0 then 0 else V(e, p - 1) + (if e[p-1] == '!' then 1 else 0)
+//@ # s is the decoding of e: every byte of e other than '!' lands at position p - V(e,p) of s,
+//@ # turned to upper case when it follows a '!'
+//@ spec func DEC(e string, s string) bool =
+//@     len(s) == len(e) - V(e, len(e))
+//@     && (forall p int {e[p]} :: 0 <= p && p < len(e) && e[p] != '!' ==> s[p - V(e, p)] == (if p > 0 && e[p-1] == '!' then e[p] - 32 else e[p]))
+
+//@ lemma V_bounds(e string, p int, q int)
+//@   requires 0 <= p && p <= q
+//@   ensures 0 <= V(e, p) && V(e, p) <= V(e, q) && V(e, q) <= V(e, p) + (q - p) && (p <= 0 ==> V(e, p) == 0)
+//@   induction q
+//@   trigger V(e, p), V(e, q)
+//@   props C11
+
+//@ func unescapeString
+//@   ensures [C11] image_only: result1 == IMG(escaped)
+//@   ensures [C11] decodes: result1 ==> ESCAPABLE(result0) && DEC(escaped, result0)
+//@   loop 0:
+//@     invariant 0 <= @pos && @pos <= len(escaped)
+//@     invariant forall k int :: 0 <= k && k < @pos ==> escaped[k] < 128 && !upper(escaped[k]) && (escaped[k] == '!' ==> (k + 1 < @pos ==> lower(escaped[k+1])))
+//@     invariant bang == (@pos > 0 && escaped[@pos - 1] == '!')
+//@     invariant forall k int :: 0 <= k && k < len(buf) ==> 0 <= buf[k] && buf[k] < 128 && buf[k] != '!'
+//@     invariant len(buf) == @pos - V(escaped, @pos)
+//@     invariant forall p int {escaped[p]} :: 0 <= p && p < @pos && escaped[p] != '!' ==> buf[p - V(escaped, p)] == (if p > 0 && escaped[p-1] == '!' then escaped[p] - 32 else escaped[p])
+//@     decreases len(escaped) - @pos
+//@   uses V_bounds
+//@   props C11
+
+//@ func EscapePath
+//@   ensures [C11] only_valid: err == nil ==> MODPATHOK(path) && ISESC(path, escaped) && NOUPPER(escaped)
+//@   ensures [C11] rejects_invalid: !MODPATHOK(path) ==> err != nil
+//@   ensures [C11] accepts_valid: MODPATHOK(path) && ESCAPABLE(path) ==> err == nil
+//@   props C11
+
+//@ func EscapeVersion
+//@   ensures [C11] only_valid: err == nil ==> ELEMOK(v, 2) && !strings.Contains(v, "!") && ISESC(v, escaped) && NOUPPER(escaped)
+//@   ensures [C11] rejects_invalid: !(ELEMOK(v, 2) && !strings.Contains(v, "!")) ==> err != nil
+//@   ensures [C11] accepts_valid: ELEMOK(v, 2) && !strings.Contains(v, "!") && ESCAPABLE(v) ==> err == nil
+//@   props C11
+
+//@ func UnescapePath
+//@   ensures [C11] only_images: err == nil ==> IMG(escaped) && DEC(escaped, path) && MODPATHOK(path)
+//@   ensures [C11] rejects_non_images: !IMG(escaped) ==> err != nil
+//@   props C11
+
+//@ func UnescapeVersion
+//@   ensures [C11] only_images: err == nil ==> IMG(escaped) && DEC(escaped, v) && ELEMOK(v, 2)
+//@   ensures [C11] rejects_non_images: !IMG(escaped) ==> err != nil
 //@   props C11
